@@ -1,11 +1,27 @@
 #!/bin/bash
-# usage: try_seed.sh <seed-dir-name> <property> [tier]  — applies the seeded patch to /repo, runs the check, restores /repo
+# usage: try_seed.sh <seed-dir-name> <property> [tier]
+# Applies the seeded patch, runs the property's check with its outputs redirected to a scratch
+# root (evidence/ and replays/ of /verif always describe the unchanged tree), restores the tree
+# and records what the check printed under seeded/<name>/detected/<property>.txt.
+# Default: the patch is applied to /repo itself (git -C /repo apply ...; git checkout afterwards).
+# SEED_WORKTREE=1: the patch is applied to a scratch git worktree of /repo's HEAD instead and the
+# check is pointed at it with VERIF_REPO (lets several trials run side by side).
 set -u
 S=/verif/seeded/$1; P=$2; T=${3:-quick}
-cd /repo && git diff --quiet || { echo "repo dirty"; exit 2; }
-git -C /repo apply --3way $S/patch.diff 2>/dev/null || git -C /repo apply $S/patch.diff || { echo "PATCH DOES NOT APPLY"; exit 3; }
-O=$(mktemp -d /tmp/seedout.XXXX); cd /verif && VERIF_OUTROOT=$O ./check $P --tier $T > /tmp/seed_$1_$P.log 2>&1; rc=$?
-git -C /repo checkout HEAD -- .
+LOG=/tmp/seed_$1_$P.log
+O=$(mktemp -d /tmp/seedout.XXXX)
+if [ "${SEED_WORKTREE:-0}" = "1" ]; then
+  W=$(mktemp -d /tmp/seedwt.XXXX); rmdir $W
+  git -C /repo worktree add --detach $W HEAD >/dev/null 2>&1 || { echo "cannot create worktree"; exit 2; }
+  git -C $W apply --3way $S/patch.diff 2>/dev/null || git -C $W apply $S/patch.diff || { echo "seed=$1 prop=$P PATCH DOES NOT APPLY"; git -C /repo worktree remove --force $W; exit 3; }
+  (cd /verif && VERIF_REPO=$W VERIF_OUTROOT=$O ./check $P --tier $T > $LOG 2>&1); rc=$?
+  git -C /repo worktree remove --force $W >/dev/null 2>&1; git -C /repo worktree prune
+else
+  cd /repo && git diff --quiet || { echo "repo dirty"; exit 2; }
+  git -C /repo apply --3way $S/patch.diff 2>/dev/null || git -C /repo apply $S/patch.diff || { echo "seed=$1 prop=$P PATCH DOES NOT APPLY"; git -C /repo checkout HEAD -- .; exit 3; }
+  (cd /verif && VERIF_OUTROOT=$O ./check $P --tier $T > $LOG 2>&1); rc=$?
+  git -C /repo checkout HEAD -- .
+fi
 mkdir -p $S/detected; rm -f $S/detected/$P.txt; cp $O/replays/$P/cex_*.json $S/detected/ 2>/dev/null; rm -rf $O
-{ echo "check=$P tier=$T rc=$rc"; grep -E "^(VIOLATION|INCONCLUSIVE|MODEL-DISC|CHECK|ERROR)" /tmp/seed_$1_$P.log | sed "s#/tmp/seedout\.[A-Za-z0-9]*/replays/$P/#seeded/$1/detected/#" | cut -c1-600; } > $S/detected/$P.txt
-echo "seed=$1 prop=$P rc=$rc"; grep -E "^(VIOLATION|INCONCLUSIVE|MODEL-DISC|CHECK|ERROR)" /tmp/seed_$1_$P.log | cut -c1-400
+{ echo "check=$P tier=$T rc=$rc"; grep -E "^(VIOLATION|INCONCLUSIVE|MODEL-DISC|CHECK|ERROR)" $LOG | sed "s#/tmp/seedout\.[A-Za-z0-9]*/replays/$P/#seeded/$1/detected/#" | cut -c1-600; } > $S/detected/$P.txt
+echo "seed=$1 prop=$P rc=$rc"; grep -E "^(VIOLATION|INCONCLUSIVE|MODEL-DISC|CHECK|ERROR)" $LOG | cut -c1-400
